@@ -229,4 +229,3 @@ func (c *CountCtx) Err() error {
 
 // Cancelled reports whether the context has reported Done at least once.
 func (c *CountCtx) Cancelled() bool { return c.At >= 0 && c.N > c.At }
-
